@@ -3,6 +3,7 @@ package main
 // rules_store2.go — persistent store: durability (C09), crash consistency (C10), directory ownership (C17).
 
 import (
+	"os"
 	"fmt"
 	"go/constant"
 	"go/token"
@@ -82,8 +83,8 @@ func ruleActiveFlushed(r *Run, rule string, k *storeKind) {
 				}
 			}
 		})
-		r.Check(ok, rule, "active:rotateIfNotEmpty", w.Pos(fn.Pos())+" "+w.Name(fn), "rotation is skipped only for an active memtable with count() == 0", "the rotation guard is not `count() > 0`")
-		// … and on which side of it the rotation sits: rotated ⇔ the active memtable holds something
+		_ = ok // (the spelling of the guard is no longer required: the table below decides when the rotation runs)
+		// rotated ⇔ the active memtable holds something
 		var rot ssa.Instruction
 		allInstrs(fn, func(in ssa.Instruction) {
 			if call, okc := in.(*ssa.Call); okc {
@@ -136,6 +137,7 @@ func ruleActiveFlushed(r *Run, rule string, k *storeKind) {
 	if fn := r.W.Fn("(*memtableQueue).remove"); fn != nil {
 		c := NewCanon(w)
 		var shift, trunc ssa.Instruction
+		var appendIdx ssa.Value
 		allInstrs(fn, func(in ssa.Instruction) {
 			if call, okc := isBuiltinCall(in, "copy"); okc {
 				d, sr := c.S(call.Call.Args[0]), c.S(call.Call.Args[1])
@@ -154,6 +156,19 @@ func ruleActiveFlushed(r *Run, rule string, k *storeKind) {
 				if sl, okSl := st.Val.(*ssa.Slice); okSl && sl.Low == nil && c.S(sl.High) == "(len(P0.queue)-c(1))" {
 					trunc = in
 				}
+				// q = append(q[:i], q[i+1:]...): shift and truncation in one
+				if ac, okA := st.Val.(*ssa.Call); okA {
+					if bi, isB := ac.Call.Value.(*ssa.Builtin); isB && bi.Name() == "append" && len(ac.Call.Args) == 2 {
+						head, okH := ac.Call.Args[0].(*ssa.Slice)
+						tail, okT := ac.Call.Args[1].(*ssa.Slice)
+						if okH && okT && head.Low == nil && tail.High == nil && c.S(head.X) == "P0.queue" && c.S(tail.X) == "P0.queue" {
+							if bo, okB := tail.Low.(*ssa.BinOp); okB && bo.Op == token.ADD && bo.X == head.High && c.S(bo.Y) == "c(1)" {
+								shift, trunc = ac, in
+								appendIdx = head.High
+							}
+						}
+					}
+				}
 			}
 		})
 		site := w.Pos(fn.Pos()) + " " + w.Name(fn)
@@ -163,6 +178,9 @@ func ruleActiveFlushed(r *Run, rule string, k *storeKind) {
 			var idx ssa.Value
 			if dsl, okD := shift.(*ssa.Call).Call.Args[0].(*ssa.Slice); okD {
 				idx = dsl.Low
+			}
+			if appendIdx != nil {
+				idx = appendIdx
 			}
 			// the removal ends in a return, so it is not part of the natural loop: one iteration = from the header of the
 			// loop that dominates it to the header again or to a return
@@ -1344,7 +1362,11 @@ func ruleWhoMayWriteFiles(r *Run, rule string, k *storeKind) {
 			if ld, ok := arg.(*ssa.UnOp); ok && !okArg && ld.Op == token.MUL {
 				// an element of a local list of the paths created so far
 				if ia, ok := ld.X.(*ssa.IndexAddr); ok {
-					if elems, okE := sliceElems(ia.X); okE && len(elems) > 0 {
+					elems, okE := sliceElems(ia.X)
+					if os.Getenv("COMETLINT_DEBUG") != "" {
+						fmt.Fprintf(os.Stderr, "cleanup: list %s elems=%d ok=%v\n", c.S(ia.X), len(elems), okE)
+					}
+					if okE && len(elems) > 0 {
 						okArg = true
 						for _, e := range elems {
 							if !fresh(e) {
